@@ -149,10 +149,12 @@ pub fn run(run: &mut Run) {
     }
     run.assumptions.push("the [0,1] clause is applied to the default (Wilson) interval only: the Wald formula leaves [0,1] by construction for extreme p and high levels (DESIGN C17)".into());
     run.assumptions.push("'narrower' for a one-sided interval means its finite bound is strictly closer to k/n (at level 1/2 the bound equals k/n and the clause is skipped)".into());
+    crate::props::history::add(run, "C17", &[crate::props::history::WILSON, crate::props::history::WALD, crate::props::history::PSTATS], 3_000, 200_000);
 }
 
 pub fn replay(sub: &str, v: &Value, obs: &mut Obs) -> Option<PResult> {
     Some(match sub {
+        "history" => crate::props::history::case(&de(v), obs),
         "grid" | "random_big" => case(&de(v), obs),
         _ => return None,
     })
